@@ -953,6 +953,10 @@ class BatchMessage(_MessageType):
                 write_value(f, param)
 
         write_consistency_level(f, self.consistency_level)
+        if self.keyspace and not ProtocolVersion.uses_keyspace_flag(protocol_version):
+            raise UnsupportedOperation(
+                "Keyspaces may only be set on queries with protocol version "
+                "5 or higher. Consider setting Cluster.protocol_version to 5.")
         if protocol_version >= 3:
             flags = 0
             if self.serial_consistency_level:
@@ -960,12 +964,7 @@ class BatchMessage(_MessageType):
             if self.timestamp is not None:
                 flags |= _PROTOCOL_TIMESTAMP_FLAG
             if self.keyspace:
-                if ProtocolVersion.uses_keyspace_flag(protocol_version):
-                    flags |= _WITH_KEYSPACE_FLAG
-                else:
-                    raise UnsupportedOperation(
-                        "Keyspaces may only be set on queries with protocol version "
-                        "5 or higher. Consider setting Cluster.protocol_version to 5.")
+                flags |= _WITH_KEYSPACE_FLAG
 
             if ProtocolVersion.uses_int_query_flags(protocol_version):
                 write_int(f, flags)
